@@ -26,6 +26,7 @@
 From Gws Require Import Lib.Base Lib.Hex Model.Negotiate Spec.NegotiationSpec
   Proofs.StrProofs Proofs.NegotiateProofs Proofs.NegotiateAgree.
 From Coq Require Import Permutation Strings.String.
+From Gws Require Import Gen.Consts Gen.Funcs Proofs.GenFuncsProofs.
 Local Open Scope Z_scope.
 
 (* Agreement, for every pair of settings (all booleans, all integers). *)
@@ -131,6 +132,30 @@ Example C12_note_requested_bits_ignored :
   /\ smwb (client_view s c) = 15 /\ cmwb (client_view s c) = 15.
 Proof. vm_compute. repeat split; reflexivity. Qed.
 
+(* Tie to the source: what initServerOption / initClientOption make of the configured PermessageDeflate - the window-bit
+   range 8..15 with its default (12 or 15 on the server depending on the takeover flag, 15 on the client), the default
+   threshold and level, pool size 1 on the client - and of the limits, buffer sizes, handler limit and handshake time-out
+   (non-positive = default), in the definitions REGENERATED from option.go on this run, is the model's norm_server /
+   norm_client that the agreement theorems start from *)
+Theorem C12_server_options_from_source : forall p hs pg rb rmax wb wmax pool ic vc,
+  let '(_, rmax', pg', rb', wmax', wb', hs', s, c, th, lv, _) :=
+    gf_gws_initServerOption hs pg (cct p) (cmwb p) (enabled p) (level p) pool (sct p) (smwb p) (threshold p) rb rmax wb wmax ic vc in
+  mkPD (enabled p) (sct p) (cct p) s c th lv = norm_server p
+  /\ rmax' = opt_default rmax gws_defaultReadMaxPayloadSize /\ wmax' = opt_default wmax gws_defaultWriteMaxPayloadSize
+  /\ rb' = opt_default rb gws_defaultReadBufferSize /\ wb' = opt_default wb gws_defaultWriteBufferSize
+  /\ pg' = opt_default pg gws_defaultParallelGolimit /\ hs' = opt_default hs gws_defaultHandshakeTimeout.
+Proof. exact gen_init_server_is. Qed.
+
+Theorem C12_client_options_from_source : forall p hs pg rb rmax wb wmax pool ic vc,
+  let '(_, rmax', pg', rb', wmax', wb', hs', s, c, th, lv, pool') :=
+    gf_gws_initClientOption hs pg (cmwb p) (enabled p) (level p) pool (smwb p) (threshold p) rb rmax wb wmax ic vc in
+  mkPD (enabled p) (sct p) (cct p) s c th lv = norm_client p
+  /\ (enabled p = true -> pool' = 1)
+  /\ rmax' = opt_default rmax gws_defaultReadMaxPayloadSize /\ wmax' = opt_default wmax gws_defaultWriteMaxPayloadSize
+  /\ rb' = opt_default rb gws_defaultReadBufferSize /\ wb' = opt_default wb gws_defaultWriteBufferSize
+  /\ pg' = opt_default pg gws_defaultParallelGolimit /\ hs' = opt_default hs gws_defaultHandshakeTimeout.
+Proof. exact gen_init_client_is. Qed.
+
 Print Assumptions C12_agree.
 Print Assumptions C12_agree_spec.
 Print Assumptions C12_header_roundtrip.
@@ -140,3 +165,5 @@ Print Assumptions C12_understood.
 Print Assumptions C12_param_order.
 Print Assumptions C12_whitespace.
 Print Assumptions C12_order_and_whitespace.
+Print Assumptions C12_server_options_from_source.
+Print Assumptions C12_client_options_from_source.
